@@ -239,6 +239,8 @@ def run(ctx):
     c08.check_dispatch(ctx, "C16.9")  # recipient / change / sender scripts come from scriptpubkey(address)
     c11.check_rows(ctx, "C16.9")
     c01.check_der(ctx, "C16.9")
+    check_multikey_order(ctx)
+    c01.check_sig_modes(ctx, "C16.9")  # every signature of send_tx is made by bits.sig: digest = HASH256(message || type), type byte appended
     c05.check_writer(ctx, "C16.9")
     from . import c14
     c14.check_pubkey_encoder(ctx, "C16.9")  # the sender's public key in scriptSigs / witnesses / redeem scripts: fixed-width SEC1
@@ -246,6 +248,34 @@ def run(ctx):
     R.check("C16.8", "OWN", fi, "send_tx keeps no state between calls (no memoised node queries, no module-level caches)", not hs,
             "%s %s" % ((hs[0][0].qualname, hs[0][2]) if hs else ("", "")), line=hs[0][1].lineno if hs else None,
             example="a second payment from the same sender in one process after the node's UTXO answer has changed")
+
+
+def check_multikey_order(ctx, oid="C16.10"):
+    """Script-hash and bare multisig senders: OP_CHECKMULTISIG walks signatures and public keys in the order of the script, so
+    the signatures must be made with the caller's keys in the caller's order -- two keys, evaluated concretely: at every
+    bits.sig call site the keys are [key 0, key 1] (no sorting, reversing or de-duplicating of the decoded keys)."""
+    R = ctx.R
+    fi = ctx.fn("bits.tx.send_tx")
+    ev = ctx.evaluator(opaque=OPQ)
+    sk = P("sender_keys", tm.LIST)
+    flag = P("sighash_flag", tm.ANY)
+    dec = [tm.app("bits.utils.wif_decode", [tm.idx(sk, i), True], ty=tm.ANY) for i in (0, 1)]
+    wants = [[tm.unhex(T("field", (d, "key"))) for d in dec], [tm.unhex(tm.idx(d, "key")) for d in dec]]  # decoded["key"], either way it is read
+    for kind in ("multisig", "p2sh", "p2wsh", "p2sh-p2wsh"):
+        ev.assumptions = {tm.truth(sk): True, tm.cmp("is", flag, None): False, tm.cmp("gt", tm.length(sk), 1): True}
+        ev.bind = {tm.length(sk): 2}
+        for i in (0, 1):
+            ev.bind[T("field", (tm.app("bits.utils.wif_decode", [tm.idx(sk, i), True], ty=tm.ANY), "addr_type"))] = kind
+        s = ev.run(fi)
+        sites = {}
+        for c in s.calls:
+            if c[0] == "bits.utils.sig":
+                sites.setdefault(id(c[3]), []).append(c[1][0] if c[1] else c[2].get("key"))
+        bad = [ks for ks in sites.values() if not (len(ks) == 2 and any(all(tm.veq(a, b) for a, b in zip(ks, want)) for want in wants))]
+        R.check(oid, "PROV", fi, "sender kind %s with two keys: signatures made with the caller's keys in the caller's order (%d signing sites)" % (kind, len(sites)),
+                bool(sites) and not bad, "the keys at a signing site are %s, not [key 0, key 1] as given" % ([tm.show(k)[:90] for k in bad[0]] if bad else "missing"),
+                example="a 2-of-3 script whose public keys are not in lexicographic order")
+    ev.assumptions, ev.bind = {}, {}
 
 
 def is_unspents(it):
